@@ -85,6 +85,7 @@ func CheckFunc(P *Program, fn *ssa.Function, c *FuncContract) (rep *FuncReport) 
 				panic(r)
 			}
 		}
+		ex.applySplits(c, rep)
 		rep.Obligations = ex.obls
 		rep.Trivial = ex.oblCount["trivial"]
 		for a := range ex.assumptions {
@@ -194,8 +195,10 @@ func CheckFunc(P *Program, fn *ssa.Function, c *FuncContract) (rep *FuncReport) 
 	}
 	bindResults(post.vars, fn.Signature, res)
 	ex.frameOn = false
+	ex.applyGhostUpdates(c, post)
 	ex.obls = append(ex.obls, &Obligation{Name: ex.fnName(fn) + "#reach[return]", Kind: "reach", Detail: "a return is reachable under all assumed facts (vacuity guard)",
 		Goal: p.False(), PC: final.pc, NFacts: len(ex.facts), Func: ex.fnName(fn), Props: c.Props})
+	partGhostDone := map[int]bool{}
 	for i, e := range c.Ensures {
 		g := ex.evalBool(post, e)
 		label := e.Label
@@ -229,6 +232,10 @@ func CheckFunc(P *Program, fn *ssa.Function, c *FuncContract) (rep *FuncReport) 
 						rv = TupleV(r.vals)
 					}
 					bindResults(pc.vars, fn.Signature, rv)
+					if !partGhostDone[ri] {
+						partGhostDone[ri] = true
+						ex.applyGhostUpdates(c, pc)
+					}
 					gr := ex.evalBool(pc, e)
 					o.Parts = append(o.Parts, oblPart{PC: r.st.pc, Goal: gr, What: fmt.Sprintf("return #%d", ri)})
 				}
@@ -554,4 +561,88 @@ func CheckSQLPins(P *Program, fn *ssa.Function, c *FuncContract) *FuncReport {
 	rep.Obligations = ex.obls
 	rep.Assumptions = []string{"SQL semantics of the pinned statements of " + ex.fnName(fn) + " are as its assumed contract states (A5)"}
 	return rep
+}
+
+// applyGhostUpdates runs the contract's ghost code on a return state (ctx.st is modified in place).
+func (ex *Exec) applyGhostUpdates(c *FuncContract, ctx *EvalCtx) {
+	p := ex.p
+	for _, gu := range c.GhostUpd {
+		ctx.clause = gu.Loc
+		targets := ctx.modTargets(gu.Loc.Expr)
+		if len(targets) != 1 {
+			ex.fail("ghost update: location must denote exactly one ghost cell")
+		}
+		t := targets[0]
+		isGhostVar := strings.HasPrefix(t.region, "ghost:")
+		if !isGhostVar && !strings.HasPrefix(t.region, "gf:") {
+			ex.fail("ghost update: %s is not ghost state", gu.Loc.Text)
+		}
+		write := func(v *Term) {
+			if isGhostVar {
+				ctx.st.ghost[strings.TrimPrefix(t.region, "ghost:")] = v
+				return
+			}
+			r := ex.getRegion(ctx.st, t.region, ex.regionSorts[t.region])
+			ctx.st.heap[t.region] = p.Store(r, t.ref, v)
+		}
+		if !gu.Choose {
+			write(ex.evalTerm(ctx, gu.Expr))
+			continue
+		}
+		var s *Sort
+		if isGhostVar {
+			s = ex.ghostVar(ctx.st, strings.TrimPrefix(t.region, "ghost:")).Sort
+		} else {
+			s = ex.regionSorts[t.region].Elem
+		}
+		write(p.Fresh("chosen:"+t.region, s))
+		ex.assume(ctx.st, ex.evalBool(ctx, gu.Expr))
+		ex.assumptions["ghost choose in "+c.Key+": a value satisfying '"+gu.Expr.Text+"' exists"] = true
+	}
+}
+
+// applySplits multiplies the queries of every proof obligation by the contract's case splits.
+func (ex *Exec) applySplits(c *FuncContract, rep *FuncReport) {
+	if len(c.Splits) == 0 || rep.pre == nil {
+		return
+	}
+	defer func() {
+		if r := recover(); r != nil {
+			if ep, ok := r.(execPanic); ok {
+				rep.Error = "split clause: " + ep.msg
+				return
+			}
+			panic(r)
+		}
+	}()
+	p := ex.p
+	for _, sp := range c.Splits {
+		ex.noOblige++
+		t := ex.evalTerm(rep.pre, sp.Expr)
+		ex.noOblige--
+		var cases []*Term
+		var names []string
+		for k := sp.Lo; k <= sp.Hi; k++ {
+			cases = append(cases, p.Eq(t, p.Int(int64(k))))
+			names = append(names, fmt.Sprintf("%s == %d", sp.Expr.Text, k))
+		}
+		cases = append(cases, p.Or(p.Lt(t, p.Int(int64(sp.Lo))), p.Gt(t, p.Int(int64(sp.Hi)))))
+		names = append(names, fmt.Sprintf("%s outside %d..%d", sp.Expr.Text, sp.Lo, sp.Hi))
+		for _, o := range ex.obls {
+			if o.Kind == "requires-sat" || o.Kind == "reach" {
+				continue
+			}
+			base := o.Parts
+			if len(base) == 0 {
+				base = []oblPart{{PC: o.PC, Goal: o.Goal, What: "all paths"}}
+			}
+			var np []oblPart
+			for _, b := range base {
+				for i, cs := range cases {
+					np = append(np, oblPart{PC: p.And(b.PC, cs), Goal: b.Goal, What: b.What + ", " + names[i]})
+				}
+			}
+			o.Parts = np
+		}
+	}
 }
